@@ -88,9 +88,9 @@ def file_monitor(inst, exp, rr, pre_content=None):
         return "SRC %s\n" % i
     faulty = any(k in ninst["faults"] for k in exp["execkeys"])
     if rr.completed and rr.rc == 0:
-        if exp["mergeinsensitive"] and ids != pre | set(exp["files"]):
-            out.append(("C04", "file set differs from Expected: missing %s extra %s" %
-                        (sorted((pre | set(exp["files"])) - ids)[:5], sorted(ids - pre - set(exp["files"]))[:5])))
+        want = pre | set(exp["files"]) | set(exp.get("catfiles", []))      # task outputs and the files components write themselves
+        if exp["mergeinsensitive"] and ids != want:
+            out.append(("C04", "file set differs from Expected: missing %s extra %s" % (sorted(want - ids)[:5], sorted(ids - want)[:5])))
         ec = exec_counts(rr.cmdlog)
         if any(v != 1 for v in ec.values()) or set(ec) != set(exp["execkeys"]):
             if exp["mergeinsensitive"] or any(v != 1 for v in ec.values()):
@@ -164,8 +164,6 @@ def validate_traces(inst, exp, rrs, weak=None):
     files = {"inst.json": inst_json(inst), "trace.ndjson": ndjson(rows), "expected.json": json.dumps(exp)}
     mon = run_tlc("Monitor", "Monitor.cfg", files=files, workers=1, timeout=300)
     files["trace.ndjson"] = ndjson(drows)
-    if any(p.get("kind") in ("concat",) for p in inst["procs"]):
-        return None, mon, drows      # file-writing components are not process kinds of Flow.tla: monitors only
     det = run_tlc("FlowTrace", "ft.cfg", files=files, workers=1, timeout=300, cfgtext=trace_cfg(weak=weak), depth_first=False)
     return det, mon, drows
 
